@@ -217,6 +217,47 @@ func c16TargetedPoison(t *tape.Tape, frags []*c16Frag) *c16Frag {
 	return nil
 }
 
+// splitSpecMulti moves the tail of a spec's members into one extend block per
+// member (in member order).
+func splitSpecMulti(t *tape.Tape, s *workload.TypeSpec) (base string, exts []string, ok bool) {
+	cp := *s
+	switch s.Kind {
+	case "object", "interface", "input":
+		if len(s.Fields) < 2 {
+			return "", nil, false
+		}
+		k := 1 + t.Draw(len(s.Fields)-1)
+		cp.Fields = s.Fields[:k]
+		for _, f := range s.Fields[k:] {
+			x := workload.TypeSpec{Kind: s.Kind, Name: s.Name, Fields: []workload.FieldSpec{f}}
+			exts = append(exts, "extend "+x.SDL())
+		}
+	case "enum":
+		if len(s.Values) < 2 {
+			return "", nil, false
+		}
+		k := 1 + t.Draw(len(s.Values)-1)
+		cp.Values = s.Values[:k]
+		for _, v := range s.Values[k:] {
+			x := workload.TypeSpec{Kind: "enum", Name: s.Name, Values: []string{v}}
+			exts = append(exts, "extend "+x.SDL())
+		}
+	case "union":
+		if len(s.Members) < 2 {
+			return "", nil, false
+		}
+		k := 1 + t.Draw(len(s.Members)-1)
+		cp.Members = s.Members[:k]
+		for _, m := range s.Members[k:] {
+			x := workload.TypeSpec{Kind: "union", Name: s.Name, Members: []string{m}}
+			exts = append(exts, "extend "+x.SDL())
+		}
+	default:
+		return "", nil, false
+	}
+	return cp.SDL(), exts, true
+}
+
 type c16Arr struct {
 	kind  string
 	loads [][]string // documents per load, each a list of fragment texts
@@ -380,8 +421,33 @@ func (c C16) Run(t *tape.Tape, opt core.RunOpt) (res core.Result) {
 		for i, f := range frags {
 			texts[i] = f.text
 		}
-		kind := t.Draw(5)
-		if kind >= 3 {
+		kind := t.Draw(6)
+		if kind == 5 {
+			// one extend block per moved member, the blocks of a type in member
+			// order but interleaved with the blocks of the other types (many
+			// blocks in one document): member order must come out as written
+			a.kind = "extend-ordered"
+			var queues [][]string
+			for i, f := range frags {
+				if f.spec != nil && t.Bool(2, 3) {
+					if b, xs, ok := splitSpecMulti(t, f.spec); ok {
+						texts[i] = b
+						queues = append(queues, xs)
+					}
+				}
+			}
+			l := perm(texts)
+			for len(queues) > 0 {
+				qi := t.Draw(len(queues))
+				l = append(l, queues[qi][0])
+				queues[qi] = queues[qi][1:]
+				if len(queues[qi]) == 0 {
+					queues = append(queues[:qi], queues[qi+1:]...)
+				}
+			}
+			a.loads = [][]string{l}
+		}
+		if kind == 3 || kind == 4 {
 			// move members of some definitions into extend blocks
 			a.ext = true
 			for i, f := range frags {
